@@ -139,7 +139,7 @@ impl<T> Streaming<T> {
 }
 '''
 
-ASYNC = r'''
+ASYNC_CODEC = r'''
 #[allow(unused_macros)]
 macro_rules! pin { ($e:expr) => { $e } }
 use core::future::Future;
@@ -171,9 +171,41 @@ pub trait StreamMapOk: Stream + Sized { fn map<F: FnOnce(Self::Item) -> Result<S
 impl<S: Stream> StreamMapOk for S { #[verifier::external_body] fn map<F: FnOnce(Self::Item) -> Result<Self::Item, Status>>(self, f: F) -> (r: OkStream<Self>) { unimplemented!() } }
 impl<M> Stream for Once<M> { type Item = M; }
 pub mod tokio_stream {
-    use super::*;
+    pub use super::*;
     pub fn once<M>(m: M) -> (r: Once<M>) ensures r.item == m { Once { item: m } }
 }
+impl Status {
+    // A-tonic-status-02: Status::from_error_generic turns a transport error into a status (source-chain inspection is not modelled)
+    pub uninterp spec fn generic<E>(e: E) -> Status;
+    #[verifier::external_body]
+    pub fn from_error_generic<E>(e: E) -> (r: Status) ensures r == Status::generic(e) { unimplemented!() }
+}
+'''
+
+STREAM_API = r'''
+// ---- the response stream as the dispatcher uses it (A-tonic-decode-02): try_next() drives Streaming::poll_next to its next
+// item, trailers() drains the stream and hands out the trailing metadata; both are functions of the stream state, which
+// (conceptually) contains everything the transport will still deliver.  Their per-poll behaviour is proved in unit decode.
+// A-core-24: core::future::Ready<T> as an opaque future type
+#[verifier::external_type_specification]
+#[verifier::external_body]
+#[verifier::reject_recursive_types(T)]
+pub struct ExReady<T>(core::future::Ready<T>);
+impl<T> Streaming<T> {
+    pub uninterp spec fn nxt(self) -> (Result<Option<T>, Status>, Streaming<T>);
+    pub uninterp spec fn trl(self) -> (Result<Option<MetadataMap>, Status>, Streaming<T>);
+    #[verifier::external_body]
+    pub fn try_next(&mut self) -> (f: core::future::Ready<Result<Option<T>, Status>>)
+        ensures f@ == old(self).nxt().0, *final(self) == old(self).nxt().1
+    { unimplemented!() }
+    #[verifier::external_body]
+    pub fn trailers(&mut self) -> (f: core::future::Ready<Result<Option<MetadataMap>, Status>>)
+        ensures f@ == old(self).trl().0, *final(self) == old(self).trl().1
+    { unimplemented!() }
+}
+'''
+
+GRPCSVC = r'''
 // crate::client::GrpcService: the transport.  Ghost log of the requests it was handed; `answer()` is what the most recent
 // call's future resolves to (A-tower-06)
 pub trait GrpcService<ReqBody> {
@@ -185,21 +217,18 @@ pub trait GrpcService<ReqBody> {
     fn call(&mut self, request: http::Request<ReqBody>) -> (f: Self::Future)
         ensures final(self).log() == old(self).log().push(request), f@ == final(self).answer();
 }
-impl Status {
-    // A-tonic-status-02: Status::from_error_generic turns a transport error into a status (source-chain inspection is not modelled)
-    pub uninterp spec fn generic<E>(e: E) -> Status;
-    #[verifier::external_body]
-    pub fn from_error_generic<E>(e: E) -> (r: Status) ensures r == Status::generic(e) { unimplemented!() }
-}
 '''
 
-CRSPEC = r'''
+NEGO = r'''
 pub open spec fn encoding_refused(h: HMap, accept: EnabledCompressionEncodings) -> bool {
     wanted(h) is Some && wanted(h) != Some(ascii_bytes("identity"@)) && (forall|e: CompressionEncoding| !(wanted(h) == Some(ascii_bytes(enc_name(e))) && accept.enabled(e)))
 }
 pub open spec fn negotiated(h: HMap, enc: Option<CompressionEncoding>, accept: EnabledCompressionEncodings) -> bool {
     match enc { Some(e) => wanted(h) == Some(ascii_bytes(enc_name(e))) && accept.enabled(e), None => wanted(h) is None || wanted(h) == Some(ascii_bytes("identity"@)) }
 }
+'''
+
+CRSPEC = r'''
 // what the dispatcher must make of a response head (C02: trailers-only responses; C05: refusal of an encoding not enabled)
 pub open spec fn response_outcome<M2, D, RB>(cfg: GrpcConfig, decoder: D, response: http::Response<RB>, r: Result<Response<Streaming<M2>>, Status>) -> bool {
     let h = response.headers@;
@@ -311,6 +340,7 @@ def build():
     u.close('}')
 
     u.item(G, 'struct', 'Grpc')
+    u.raw(NEGO)
     u.raw(CRSPEC)
     u.raw('''impl<T> http::Response<T> {
     // A-http-37: Response::map replaces the body, keeps the head
@@ -355,7 +385,9 @@ def build():
          ensures=[Clause('CR_response_head_is_interpreted_as_the_protocol_says', 'response_outcome(self.config, decoder, response, r)', ['C02', 'C05'])])
 
     u.close('}')
-    u.raw(ASYNC)
+    u.raw(ASYNC_CODEC)
+    u.raw(GRPCSVC)
+    u.raw(STREAM_API)
     u.raw('''
 // the request the transport is handed for a call with this user request
 pub open spec fn sent_request<S, C: Codec>(q: http::Request<Body>, cfg: GrpcConfig, request: Request<S>, path: PathAndQuery, codec: C) -> bool {
@@ -372,26 +404,6 @@ pub open spec fn call_outcome<M2, C: Codec, RB, E>(cfg: GrpcConfig, codec: C, an
         Err(e) => r == Err::<Response<Streaming<M2>>, Status>(Status::generic(e)),
         Ok(resp) => exists|d: C::Decoder| erased_decoder(d) == codec.dec_id() && #[trigger] response_outcome(cfg, d, resp, r),
     }
-}
-// ---- the response stream as the dispatcher uses it (A-tonic-decode-02): try_next() drives Streaming::poll_next to its next
-// item, trailers() drains the stream and hands out the trailing metadata; both are functions of the stream state, which
-// (conceptually) contains everything the transport will still deliver.  Their per-poll behaviour is proved in unit decode.
-// A-core-24: core::future::Ready<T> as an opaque future type
-#[verifier::external_type_specification]
-#[verifier::external_body]
-#[verifier::reject_recursive_types(T)]
-pub struct ExReady<T>(core::future::Ready<T>);
-impl<T> Streaming<T> {
-    pub uninterp spec fn nxt(self) -> (Result<Option<T>, Status>, Streaming<T>);
-    pub uninterp spec fn trl(self) -> (Result<Option<MetadataMap>, Status>, Streaming<T>);
-    #[verifier::external_body]
-    pub fn try_next(&mut self) -> (f: core::future::Ready<Result<Option<T>, Status>>)
-        ensures f@ == old(self).nxt().0, *final(self) == old(self).nxt().1
-    { unimplemented!() }
-    #[verifier::external_body]
-    pub fn trailers(&mut self) -> (f: core::future::Ready<Result<Option<MetadataMap>, Status>>)
-        ensures f@ == old(self).trl().0, *final(self) == old(self).trl().1
-    { unimplemented!() }
 }
 // what a single-response call makes of the response stream (C02: "success only if the handler succeeded, otherwise an error
 // carrying the handler's code, message and details and every metadata entry the handler attached")
